@@ -97,3 +97,72 @@ func VerifC08SweepBatches() {
 	rt.Assert(finished, "removal-finishes-within-three-steps")
 	rt.Reach("end")
 }
+
+// VerifC08BlockRecordAfterRemoval: a block record listing 1..4 transactions (written by the real putBlockRecord /
+// appendRawBlockRecord, as the apply step writes it); an arbitrary non-empty subset of them is erased by a wallet
+// removal. The real checkBlockRecordAfterTxRemoved leaves exactly the surviving transactions, in order, under the
+// same block, or no record when none survives: other wallets' transactions stay listed (and so stay reachable for
+// a later rollback of that block).
+func VerifC08BlockRecordAfterRemoval() {
+	s := verifNewStores(verifWID)
+	n := rt.NondetLen(1, 4)
+	blk := &BlockMeta{Height: rt.NondetU64(), Hash: vHash()}
+	rt.Assume(blk.Height < vMaxHeight)
+	hashes := make([]wire.Hash, n)
+	gone := map[wire.Hash]struct{}{}
+	var survivors []wire.Hash
+	for i := 0; i < n; i++ {
+		hashes[i] = vHash()
+		for j := 0; j < i; j++ {
+			rt.Assume(hashes[i] != hashes[j])
+		}
+		if rt.NondetBool() {
+			gone[hashes[i]] = struct{}{}
+		} else {
+			survivors = append(survivors, hashes[i])
+		}
+	}
+	rt.Assume(len(gone) > 0)
+	err := mwdb.Update(s.db, func(dbtx mwdb.DBTransaction) error {
+		ns := dbtx.FetchBucket(s.meta.nsBlocks)
+		if e := putBlockRecord(ns, blk, &hashes[0]); e != nil {
+			return e
+		}
+		for i := 1; i < n; i++ {
+			_, v, e := existsBlockRecord(ns, blk.Height)
+			if e != nil {
+				return e
+			}
+			nv, e := appendRawBlockRecord(v, &hashes[i])
+			if e != nil {
+				return e
+			}
+			if e := putRawBlockRecord(ns, keyBlockRecord(blk.Height), nv); e != nil {
+				return e
+			}
+		}
+		return s.tx.checkBlockRecordAfterTxRemoved(ns, map[uint64]map[wire.Hash]struct{}{blk.Height: gone})
+	})
+	rt.Assert(err == nil, "block-record-updated")
+	if err != nil {
+		rt.Reach("end")
+		return
+	}
+	k, v, _ := existsBlockRecord(s.b, blk.Height)
+	if len(survivors) == 0 {
+		rt.Assert(v == nil, "block-record-without-transactions-erased")
+		rt.Reach("erased")
+	} else {
+		var br blockRecord
+		rt.Assert(v != nil && readRawBlockRecord(k, v, &br) == nil, "block-record-kept-and-readable")
+		if v != nil {
+			ok := len(br.transactions) == len(survivors) && br.Hash == blk.Hash && br.Height == blk.Height
+			for i := 0; ok && i < len(survivors); i++ {
+				ok = br.transactions[i] == survivors[i]
+			}
+			rt.Assert(ok, "block-record-lists-exactly-the-surviving-transactions")
+		}
+		rt.Reach("kept")
+	}
+	rt.Reach("end")
+}
